@@ -153,7 +153,7 @@ def one_case(rng, runq, todo, rep, dim, quick, idx):
     if np.max(np.abs(H.ravel() - Href)) > 1e-7 * slack:
         mon.append(f"hat-matrix diagonal differs from w_i b_i^T A^-1 b_i (max dev {np.max(np.abs(H.ravel() - Href)):.3g})")
     Hpos = H[w > 0]
-    if Hpos.size and (Hpos.min() < -1e-8 or Hpos.max() > 1 + 1e-8):
+    if Hpos.size and (Hpos.min() < -1e-8 * slack or Hpos.max() > 1 + 1e-8 * slack):    # rounding grows with cond(A)
         mon.append(f"leverages outside [0,1]: min {Hpos.min():.3g}, max {Hpos.max():.3g}")
 
     def refit(yy, ww=w):
@@ -161,6 +161,21 @@ def one_case(rng, runq, todo, rep, dim, quick, idx):
             warnings.simplefilter("ignore")
             return np.asarray(fitx(make(), yy, ww).y_hat, float)
 
+    # history independence: an object already fitted on ANOTHER grid/data, refitted here, gives the fresh answer
+    xs_other = [np.round((x - x[0]) * 1.75 * 64) / 64 + x[0] - 0.5 for x in xs_list]
+    if all(np.all(np.diff(x) > 0) for x in xs_other):
+        with warnings.catch_warnings():
+            warnings.simplefilter("ignore")
+            old = make()
+            old.fit(1.0 + 0.5 * y, xs_other[0] if dim == 1 else xs_other, sample_weights=np.ones(shape),
+                    penalty=lams[0] if dim == 1 else tuple(lams))
+            fitx(old, y, w)
+            d_hist = max(float(np.max(np.abs(np.asarray(old.y_hat, float) - yhat))),
+                         float(np.max(np.abs(np.asarray(old.beta_hat, float) - beta))),
+                         float(np.max(np.abs(np.asarray(old.predict(xnew[0] if dim == 1 else xnew), float) - ypn))))
+        if d_hist > 1e-9 * max(1.0, np.max(np.abs(yhat)), np.max(np.abs(beta))) * slack:
+            mon.append(f"a fit depends on what the object was fitted on before (re-fit on this grid after a fit on another "
+                       f"grid differs from a fresh fit by {d_hist:.3g})")
     y2 = np.round(rng.normal(size=shape) * 8) / 8 + 2.0
     lin = refit(1.5 * y - 0.5 * y2) - (1.5 * yhat - 0.5 * refit(y2))
     if np.max(np.abs(lin)) > 1e-7 * max(1.0, np.max(np.abs(y)), np.max(np.abs(y2))) * slack:
